@@ -38,6 +38,7 @@ def main():
             specs[key] = asn1tools.compile_string(job['spec'], job['codec'], numeric_enums=job['numeric'])
         spec = specs[key]
         data = bytes.fromhex(job['data'])
+        rss0 = resource.getrusage(resource.RUSAGE_SELF).ru_maxrss
         t0 = time.time()
         signal.setitimer(signal.ITIMER_REAL, job['deadline'])
         try:
@@ -61,7 +62,8 @@ def main():
             except Exception as e:  # noqa
                 sent = 'EXC ' + classify(e) + ' ' + str(e)[:80]
         peak = resource.getrusage(resource.RUSAGE_SELF).ru_maxrss
-        print(json.dumps({'id': job['id'], 'out': out, 'dt': dt, 'sentinel': sent, 'maxrss_kb': peak}), flush=True)
+        print(json.dumps({'id': job['id'], 'out': out, 'dt': dt, 'sentinel': sent, 'maxrss_kb': peak,
+                          'rss_growth_kb': peak - rss0}), flush=True)
 
 
 main()
